@@ -98,7 +98,7 @@ def gen_map_meta(r: random.Random, game: str, keys: int) -> dict:
     if game == "osu":
         m = dict(title=t, artist=a, title_unicode=r.choice(UNI_TITLES), artist_unicode=r.choice(UNI_TITLES),
                  creator=r.choice(CREATORS), version=r.choice(["Easy", "Hard", "x y", "7K"]),
-                 circle_size=float(keys), preview_time=r.choice([-1, 0, 1000, 12345]),
+                 circle_size=float(keys), preview_time=r.choice([-1, 0, 1000, 12345, 3600000, -5000]),
                  audio_file_name="audio.mp3", background_file_name=r.choice(["bg.jpg", "", "a,b.png"]),
                  tags=list(r.choice([[], ["a"], ["a", "b"]])))
         if r.random() < 0.4:
@@ -132,8 +132,8 @@ def gen_set_meta(r: random.Random, game: str) -> dict:
     t, a = r.choice(ASCII_TITLES), r.choice(ASCII_TITLES)
     if game == "sm":
         return dict(title=t, artist=a, credit=r.choice(CREATORS), music="audio.mp3", background=r.choice(["bg.jpg", ""]),
-                    offset=r.choice([0.0, 100.0, -250.0, 1234.5]), sample_start=r.choice([0.0, 1000.0, 30500.0]),
-                    sample_length=r.choice([10000.0, 12000.0]), selectable=r.random() < 0.7,
+                    offset=r.choice([0.0, 100.0, -250.0, 1234.5]), sample_start=r.choice([0.0, 1000.0, 30500.0, -1000.0, 3600000.0]),
+                    sample_length=r.choice([10000.0, 12000.0, 0.0, 1.0]), selectable=r.random() < 0.7,
                     title_translit=r.choice(["", "tt"]), artist_translit=r.choice(["", "at"]))
     if game == "o2j":
         return dict(title=t, artist=a, creator=r.choice(CREATORS), level=[r.randint(1, 30), r.randint(1, 30), r.randint(1, 30), 0],
@@ -272,6 +272,18 @@ class Gen:
     def p_sorted(self):
         h = self.pick("list")
         return h and self.mk("list.sorted", h=h.name, reverse=self.r.random() < 0.4, out=self.new_h())
+
+    def p_sort_edit_sort(self):
+        """sorted() -> an in-place edit of the RESULT that puts its rows out of order -> sorted() again on that same object:
+        anything the first sort remembered about the order is stale by then"""
+        h = self.pick("list", pred=lambda x: len(x.obj.df) >= 2 and "offset" in x.obj.df.columns and not x.obj.df.isna().any().any()
+                      and str(x.obj.df["offset"].dtype) != "object")
+        if not h:
+            return None
+        a, b = self.new_h(), self.new_h()
+        return [self.mk("list.sorted", h=h.name, reverse=False, out=a),
+                self.mk("list.col_arith", h=a, col="offset", opr="*", v=-1),
+                self.mk("list.sorted", h=a, reverse=self.r.random() < 0.2, out=b)]
 
     def p_append(self):
         h = self.pick("list", pred=lambda x: x.meta.get("cls") in fields.LISTS)
@@ -795,7 +807,7 @@ class Gen:
 
 class GenC16(Gen):
     table = dict(list_new=14, list_wrap=3, list_query=10, get_int=10, slice=8, mask=6, iter=5, sorted=7, append=8,
-                 filter=16, list_deepcopy=2, col_arith=5, setitem=3, move=1, map_new=1, map_get_list=2, map_assign_list=1)
+                 filter=16, list_deepcopy=2, col_arith=5, setitem=3, move=1, map_new=1, map_get_list=2, map_assign_list=1, sort_edit_sort=3)
 
     def setup(self):
         k = self.r.random()
@@ -1299,7 +1311,8 @@ class GridMixin:
         if game == "sm":
             kinds += [k for k in ("rolls", "mines", "lifts", "fakes", "keysounds") if self.d.random() < 0.3]
         objs = gen_grid_objects(self.d, tl, keys, n_measures, self.hi, kinds,
-                                min_gap=Fraction(1, 48) if (not exact or game == "bms") else Fraction(0), lcm_cap=lcm_cap)
+                                min_gap=Fraction(1, 48) if (not exact or game == "bms") else Fraction(0), lcm_cap=lcm_cap,
+                                inside=(game == "bms" and self.d.random() < 0.12))
         if not any(objs.values()):
             objs["hits"].append(dict(offset=float(tl[0][2]), column=0))
         lists = {}
@@ -1327,7 +1340,12 @@ class GridMixin:
             base = gen_row(self.d, slots["bpms"], keys)
             base.update(offset=float(ms), bpm=float(v), metronome=metro if "metronome" in base else 4)
             bp.append(base)
-        if len(bp) > 1 and self.d.random() < 0.3:
+        if game == "sm" and self.d.random() < 0.1:
+            # a tempo "reset pair": another value listed on the time of a tempo point, just before it in the list - the later
+            # one stays in force, so every position above is unchanged (as in charts converted from osu)
+            i = self.d.randrange(len(bp))
+            bp.insert(i, dict(bp[i], bpm=float(self.d.choice([v for v in (90.0, 150.0, 240.0, 333.0) if v != bp[i]["bpm"]]))))
+        elif len(bp) > 1 and self.d.random() < 0.3:
             self.d.shuffle(bp)  # a tempo point appended later: rows are not in time order
         lists["bpms"] = bp
         if "svs" in slots:
@@ -1752,6 +1770,15 @@ class GenC15G(GridMixin, GenC15):
                     for row in lists[k]:
                         row["sample"] = self.d.choice([b"a.wav", b"kick.ogg", b""])
                 meta = dict(title=b"t", artist=b"a", version=b"1", samples_dict={b"02": b"a.wav", b"03": b"kick.ogg"}, ln_end_channel=b"ZY")
+                if self.d.random() < 0.12:
+                    # a sample table with one or no free id left (01..ZZ without the #LNOBJ id), and notes whose sounds are not in it
+                    B36_ = "0123456789ABCDEFGHIJKLMNOPQRSTUVWXYZ"
+                    ids = [(a + b).encode() for a in B36_ for b in B36_][1:]
+                    free = set(self.d.sample(ids, self.d.choice([0, 1, 2]))) | {b"ZY"}
+                    meta["samples_dict"] = {i: b"s" + i + b".wav" for i in ids if i not in free}
+                    for k in ("hits", "holds"):
+                        for row in lists[k]:
+                            row["sample"] = self.d.choice([b"guest_a.wav", b"guest_b.wav", b"guest_c.wav", b"s05.wav", b"sAB.wav", b""])
             else:
                 meta = gen_map_meta(self.d, "sm", keys)
             plans = {k: self._plan(len(v)) for k, v in lists.items() if len(v) > 1}
